@@ -27,6 +27,8 @@ STATEFUL_DOCS = [
     "~~s~~ <http://x.y> &amp; &#35;\n", "1. a\n\n   b\n2. c\n\n- d\n- e\n",
     "```py\nRAISE\n```\n", "```py a=1\nfine\n```\n\n~~~\nplain\n~~~\n", "`RAISE` x\n", "[a](/l1) ![b](/l2 't') <http://l3.x/>\n",
     "x @! y\n", "```\nok\n```\n\n```js\nRAISE\n```\n\n```\nafter\n```\n",
+    "para\n***\npara\n# h\npara\n```\ncode\n```\npara\n> q\npara\n- l\npara\n    not code\n",
+    "> q\n***\n> r\n# h\n> s\n- l\n\n- a\n***\n- b\n  # h\n\n[r]: /u\n'title\n# h'\n",
     "> quoted\n> - item\n>   @@!\n> more\n", "- a\n- b\n  @@!\n- c\n", "1. x\n\n   > y\n   @@!\n",
 ]
 OPT_VALUES = {"html": [True, False], "typographer": [True, False], "breaks": [True, False], "xhtmlOut": [True, False],
@@ -200,55 +202,53 @@ def gen(rng: random.Random, tier: str) -> dict:
             ops.append(["call", j, m, d, em])
             if rng.random() < 0.12:
                 ops.append(["mutate", j, rng.randrange(4)])
-        elif r < 0.55:
+        elif r < 0.53:
             ops.append([rng.choice(["enable", "disable"]), j, rng.sample(RULE_POOL, rng.randint(1, 3))])
-        elif r < 0.62:
+        elif r < 0.59:
             k = rng.choice(list(OPT_VALUES))
             ops.append(["opt_item", j, k, rng.choice(OPT_VALUES[k])])
-        elif r < 0.68:
+        elif r < 0.64:
             k = rng.choice(ATTR_OPTS)
             ops.append(["opt_attr", j, k, rng.choice(OPT_VALUES[k])])
-        elif r < 0.73:
+        elif r < 0.68:
             if n_uopt and rng.random() < 0.6:
                 ops.append(["set", j, f"user:{rng.randrange(n_uopt)}"])
             else:
                 o = copy.deepcopy(P.commonmark.make()["options"])
                 o.update(_gen_options(rng, 0.4))
                 ops.append(["set", j, o])
-        elif r < 0.79:
+        elif r < 0.73:
             ops.append(["configure", j, _gen_preset_ref(rng, n_user), _gen_options(rng) if rng.random() < 0.5 else None])
-        elif r < 0.85:
+        elif r < 0.78:
             pid += 1
             ops.append(["render_rule", j, rng.choice(RENDER_KEYS), f"m{pid}"])
-        elif r < 0.90:
+        elif r < 0.825:
             pid += 1
             ops.append(["use", j, f"p{pid}", rng.choice(["inline", "core", "block"])])
-        elif r < 0.93:
+        elif r < 0.85:
             ops.append(["construct", j, _gen_preset_ref(rng, n_user), _gen_options(rng) if rng.random() < 0.6 else None])
-        elif r < 0.95:
+        elif r < 0.87:
             ops.append(["ruler", j, rng.choice(["block", "inline"]), rng.choice(["enable", "disable"]),
                         [rng.choice(docgen.BLOCK_OPTIONAL)]])
-        elif r < 0.965 and n_inst > 1:
+        elif r < 0.895 and n_inst > 1:
             # hand one instance's live options object to another instance (set / constructor): they must not alias
             i = rng.choice([x for x in range(n_inst) if x != j])
             if rng.random() < 0.6:
                 ops.append(["set_from", j, i])
             else:
                 ops.append(["construct_from", j, _gen_preset_ref(rng, n_user), i])
-        elif r < 0.968 and False:
-            pass
-        elif r < 0.972:
+        elif r < 0.915:
             # a user hook on instance j that uses instance i (possibly j itself) while j is parsing
             i = rng.randrange(n_inst)
             ops.append(["hook", j, rng.choice(["normalizeLink", "validateLink", "normalizeLinkText"]), i,
                         rng.choice(["[q](/hooked 'h') `c`", "*e* [z][foo] <http://in.hook/>", "x"])])
-        elif r < 0.98:
+        elif r < 0.935:
             ops.append(["highlight", j, rng.randrange(3)])
-        elif r < 0.984:
+        elif r < 0.96:
             # a stock block rule re-registered with ITS OWN function but another terminator-chain membership
             ops.append(["at_alt", j, rng.choice(["hr", "fence", "heading", "blockquote", "list", "code"]),
                         rng.sample(["paragraph", "reference", "blockquote", "list"], rng.randint(0, 3))])
-        elif r < 0.99:
+        elif r < 0.985:
             # the caller scribbles over what an earlier call returned (tokens, their attrs/meta/map/children, the env):
             # results belong to the caller, so this must not reach any later call
             ops.append(["mutate", j, rng.randrange(4)])
